@@ -504,3 +504,114 @@ def run(ck, prog):
     _run_pre_config(ck, prog)
     from sa import config
     config.run_rule(ck, prog, set(DIMENSION_FILES))
+
+
+# ------------------------------------------------------------------ BernoulliNB: with a threshold set, fit and predict see the binarised matrix
+_run_pre_bernoulli_bin = run
+
+
+def bernoulli_binarizes(ck, prog):
+    """Some(threshold) => the matrix handed on (to the distribution's fit / to the shared predict) is x.binarize(threshold),
+    for EVERY threshold (negative ones included): from the Some edge of the test of the stored option, no hand-over of the raw
+    x is reachable."""
+    from sa.prov import Resolver
+    rule = "E1-gate"
+    for nm, fn, opt_base, sinks in (
+            ("fit", r"^naive_bayes::bernoulli::BernoulliNB::<T, M>::fit$", "parameters", ("BernoulliNBDistribution::<T>::fit",)),
+            ("predict", r"^naive_bayes::bernoulli::BernoulliNB::<T, M>::predict$", "self", ("BaseNaiveBayes::<T, M, D>::predict",))):
+        inst = f"BernoulliNB::{nm}: with Some(threshold) the matrix handed on is x.binarize(threshold)"
+        try:
+            b = prog.one(fn)
+        except AnchorError as e:
+            ck.violation(rule, inst, fn, "", expected="anchor exists", found=f"anchor vanished: {e}")
+            continue
+        res = Resolver(b)
+        n = 0
+        for i, blk in enumerate(b.blocks):
+            t = blk["term"]
+            if i not in b.reach or t["k"] != "switch":
+                continue
+            d = res.operand(t["o"])
+            if not (d[0] == "discr" and d[1][0] == "field" and d[1][2] == "binarize"):
+                continue
+            some = [dst for v, dst in t["targets"] if v == "1"]
+            some = some or ([t["otherwise"]] if [v for v, _ in t["targets"]] == ["0"] else [])
+            if not some:
+                continue
+            reach = b.reachable_from(some)
+            for bb, c in b.calls():
+                f = c.get("f")
+                if bb not in reach or not (f and f["path"].endswith(sinks)):
+                    continue
+                n += 1
+                args = [res.operand(a) for a in c["args"]]
+                raw = [a for a in args if a[0] == "arg" and b.local_name(a[1]) == "x"]
+                binz = [a for a in args if a[0] == "call" and a[1].split("::")[-1] in ("binarize", "binarize_mut")]
+                if raw and not binz:
+                    ck.violation(rule, inst, b.path, b.where(bb), ordinal=n, expected="x.binarize(threshold) whenever the threshold is set",
+                                 found=f"{f['path'].split('::')[-1]}(x) with the raw matrix is reachable although {opt_base}.binarize is Some(_)")
+                else:
+                    ck.ok(rule, inst, b.path, b.where(bb), f"{f['path'].split('::')[-1]}({render(args[1 if nm == 'predict' else 0])[:60]})")
+        if n == 0:
+            ck.note(f"{inst}: no test of the stored option with a hand-over behind it recognised: no instance")
+
+
+def run(ck, prog):
+    _run_pre_bernoulli_bin(ck, prog)
+    bernoulli_binarizes(ck, prog)
+
+
+EXPLANATION += (" BernoulliNB: behind the Some edge of the test of the stored threshold, fit and predict hand on x.binarize(threshold) only "
+                "(no raw hand-over for some thresholds).")
+
+
+# ------------------------------------------------------------------ the class score stays in log space
+_run_pre_logspace = run
+
+
+def score_in_log_space(ck, prog):
+    """The joint log-likelihood of a row is routinely below ln(f64::MIN_POSITIVE) = -745 (a few dozen features, or one
+    Gaussian feature far from every class mean): exponentiating it gives 0 for every class, all scores tie and the arg-max
+    returns an arbitrary class.  Rule: in BaseNaiveBayes::predict (closures and local helpers included) no exp() is applied
+    to a value derived from NBDistribution::log_likelihood."""
+    from sa.prov import Resolver
+    rule, inst = "E2-provenance", "BaseNaiveBayes::predict: the log-likelihood is never exponentiated"
+    try:
+        b = prog.one(NB + "$")
+    except AnchorError as e:
+        ck.violation(rule, inst, "BaseNaiveBayes::predict", "", expected="anchor exists", found=f"anchor vanished: {e}")
+        return
+    bodies = [b] + list(prog.closures_of.get(b.path, []))
+    for bd in list(bodies):
+        for bb, t in bd.calls():
+            f = t.get("f")
+            cal = prog.bodies.get((f or {}).get("resolved") or "") or prog.bodies.get((f or {}).get("path") or "")
+            if cal is not None and cal.path.startswith("naive_bayes::BaseNaiveBayes") and cal not in bodies:
+                bodies.append(cal)
+                bodies.extend(prog.closures_of.get(cal.path, []))
+    n = 0
+    for bd in bodies:
+        res = Resolver(bd)
+        for bb, t in bd.calls():
+            f = t.get("f")
+            if not f:
+                continue
+            if f["path"].endswith("NBDistribution::log_likelihood"):
+                n += 1
+            if f["path"].split("::")[-1] in ("exp", "exp2", "exp_m1") and t["args"]:
+                a = res.operand(t["args"][0])
+                if any(s[0] == "call" and s[1].endswith("NBDistribution::log_likelihood") for s in subterms(a)):
+                    ck.violation(rule, inst, bd.path, bd.where(bb), expected="scores are compared as log prior + log-likelihood",
+                                 found=f"exp({render(a)[:60]}): underflows to 0 for every class once the log-likelihood is below about -745")
+    if n:
+        ck.ok(rule, inst, b.path, f"{b.loc[0]}:{b.loc[1]}", f"{n} use(s) of log_likelihood in {len(bodies)} bodies, none under exp()")
+    else:
+        ck.note(f"{inst}: no call of NBDistribution::log_likelihood in predict: no instance")
+
+
+def run(ck, prog):
+    _run_pre_logspace(ck, prog)
+    score_in_log_space(ck, prog)
+
+
+EXPLANATION += " The class score stays in log space: no exp() of a value derived from log_likelihood in BaseNaiveBayes::predict."
